@@ -454,13 +454,8 @@ func checkMaskKeys(run *Run, prop string, views []*TapView, ends []*RealEnd) {
 	if !maskDefaultIsCryptoRand() {
 		run.fail(prop, "mask-source", "default", "the library's default mask-key source is not crypto/rand.Reader")
 	}
-	if run.MaskOdd > 0 {
-		run.fail(prop, "mask-source", "odd-read", "the key source was read with a length other than 4 bytes %d times", run.MaskOdd)
-	}
-	issued := map[[4]byte]int{}
-	for _, k := range run.MaskKeys {
-		issued[k]++
-	}
+	// every key is a 4-byte window of the byte stream the source handed out, and no window is used by
+	// more frames than it occurs (a library may fetch keys in batches; it may not reuse or invent them)
 	prepared := len(run.Scn.Prepared) > 0
 	used := map[[4]byte]int{}
 	for i, tv := range views {
@@ -468,8 +463,8 @@ func checkMaskKeys(run *Run, prop string, views []*TapView, ends []*RealEnd) {
 			continue
 		}
 		for _, f := range tv.Frames {
-			if issued[f.Key] == 0 {
-				run.fail(prop, "mask-key", "not-issued", "%s: frame at byte %d is masked with %x, which the key source never issued", endName(ends[i]), f.Start, f.Key)
+			if !bytes.Contains(run.MaskStream, f.Key[:]) {
+				run.fail(prop, "mask-key", "not-issued", "%s: frame at byte %d is masked with %x, which the key source never handed out", endName(ends[i]), f.Start, f.Key)
 				return
 			}
 			used[f.Key]++
@@ -477,12 +472,23 @@ func checkMaskKeys(run *Run, prop string, views []*TapView, ends []*RealEnd) {
 	}
 	if !prepared {
 		for k, n := range used {
-			if n > issued[k] {
-				run.fail(prop, "mask-key", "reused", "masking key %x was issued %d time(s) but masks %d frames", k, issued[k], n)
+			if n > 1 && n > bytes.Count(run.MaskStream, k[:])+countOverlaps(run.MaskStream, k[:]) {
+				run.fail(prop, "mask-key", "reused", "masking key %x was handed out %d time(s) but masks %d frames", k, bytes.Count(run.MaskStream, k[:]), n)
 				return
 			}
 		}
 	}
+}
+
+// countOverlaps counts occurrences that bytes.Count (non-overlapping) misses.
+func countOverlaps(s, k []byte) int {
+	all := 0
+	for i := 0; i+len(k) <= len(s); i++ {
+		if bytes.Equal(s[i:i+len(k)], k) {
+			all++
+		}
+	}
+	return all - bytes.Count(s, k)
 }
 
 func oracleC02(run *Run) {
